@@ -315,6 +315,15 @@ def run(tier, seed, model_ok, translator, search=False):
             continue
         if not compare_with_ref(ref, impl["ok"], out, case):
             continue
+        # "every other unit yields floating-point numbers": the dtype, not only the values
+        kinds = dtype_kinds(grid)
+        bad = [(n, u, k) for n, u, k in zip(impl["ok"]["names"], impl["ok"]["units"], kinds)
+               if info["n_row"] and ((u == "text" and k not in "OUST") or (u == "onoff" and k != "b")
+                                     or (u == "datetime" and k != "M")
+                                     or (u not in ("text", "onoff", "datetime") and k != "f"))]
+        if bad:
+            out.fail("a column's data type is not the one its unit prescribes", case, bad, None, key="dtype")
+            continue
         if model_ok:
             ops.append(rc.model_op("make_table", grid, "strict"))
             pend.append(("make_table", case, impl))
@@ -335,6 +344,14 @@ def run(tier, seed, model_ok, translator, search=False):
             if ans != impl:
                 out.mismatch(f"{what}: pdtable vs Lean model", case, impl, ans)
     return out
+
+
+def dtype_kinds(grid):
+    from pdtable.io.parsers.blocks import make_table
+    with warnings.catch_warnings():
+        warnings.simplefilter("ignore")
+        t = make_table([list(r) for r in grid], fixer=rc.make_fixer("strict"))
+    return [t.df[c].dtype.kind for c in t.df.columns]
 
 
 def raw_columns(grid, info, n_names):
